@@ -9,6 +9,8 @@ TEXT = {
  "C01": "Proof (Coq) that, for every order/duplication/loss of the honest sender's packets and every interleaving of receive calls, the messages obtained on an ordered channel are a byte-identical prefix of those submitted (ordered_prefix), that reassembly yields exactly the message and only when every slice arrived, that the wire codec round-trips, and that a complete message is buffered and handed over (progress). The healed-network clause is proved as per-tick progress lemmas, not as a closed bound on ticks: partial for liveness.",
  "C02": "Proof (Coq) that on an unordered channel each id is obtained at most once and byte-identical for every event order (unordered_exactly_once), that a complete message is available to the next receive call without waiting for older ones (unordered_eager, unordered_receive_available), and that an honest run only ever stops on the memory limit. Liveness as for C01: per-tick progress, partial.",
  "C03": "Proof (Coq) that slicing partitions a message exactly, that the slice constructor returns the message exactly when all indices have been seen and nothing otherwise (any order, duplicates), that hostile slices cannot corrupt a constructor, and that packets round-trip through the wire format; the unreliable multiplicity bound is checked by the monitor on the implementation and not yet a theorem: partial.",
+ "C04": "Proof (Coq) that the replay window accepts every sequence number below 2^64-1 at most once for every order, duplication and lateness (replay_at_most_once; the 2^64-1 sentinel is refuted with a witness), that a never-accepted number less than 256 behind the highest is accepted, that a datagram decodes only if its body is exactly a seal under the session key with nonce and associated data derived from its own header bytes and the protocol id (decode_sound), and that the window moves only after the tag verified. The end-to-end attribution (surfaced payload = one the peer generated, attributed to its id) is checked by the monitor on the implementation over adversarial histories; server/client theorems are being added. Unforgeability is the named assumption.",
+ "C07": "Proof (Coq) that decoding any datagram, reading any bytes as a connect token and opening any private token never panics, and that a datagram whose tag does not verify leaves the replay window untouched and yields an error. The whole-endpoint statements (no panic for NetcodeServer/NetcodeClient in every state, no state change on inauthentic input) are being proved (NServerP, NClientP); meanwhile the monitor compares the full observable state before and after every datagram known to be inauthentic.",
  "C06": "Proof (Coq) that decoding any byte string never panics, that every receive-channel operation on arbitrary (hostile) slices and messages keeps the memory-accounting invariant (accounted = buffered + reserved, within the maximum) and never panics, that a packet can only disconnect with one of three reasons, and that processing a packet for one client leaves every other connection of a server untouched.",
  "C08": "Proof (Coq) that the pending-ack ranges denote only sequence numbers that were added (never acknowledges what was not received), stay well formed, and that trimming by acked_largest removes exactly the numbers up to the bound. The end-to-end statement (release implies delivery) is checked by the monitor on the implementation; the two-endpoint theorem is open: partial.",
  "C09": "Proof (Coq) of exact memory accounting of the receive channels under arbitrary input (never above the maximum, no underflow), of full return after drain under any honest schedule (drained_is_empty, for both reliable modes), and of the 3 s discard of stale unreliable reassemblies releasing exactly their reservations. Send-side accounting theorems are being added. One documented finding (reservation rounding) is excluded by class.",
